@@ -720,6 +720,18 @@ func (c *EvalCtx) evalCall(e *Expr) TVal {
 		n := map[string]string{"strindex": "str_Index", "strlastindex": "str_LastIndex"}[e.Name]
 		w.declFun(n, fmt.Sprintf("(declare-fun %s (Int Int) Int)", n))
 		return c.mk("("+n+" "+sv.T+" "+sub.T+")", sInt, ti)
+	case "implements":
+		// implements(x, "T"): the dynamic type of the non-nil interface value x implements interface T
+		// (the same uninterpreted relation the engine uses for x.(T))
+		v := c.eval(e.Args[0])
+		if len(e.Args) == 2 && e.Args[1].Op == "str" {
+			if t := resolveType(c.pkg, e.Args[1].Name); t != nil {
+				w.declFun("implements", "(declare-fun implements (Int Int) Bool)")
+				return c.mk(fmt.Sprintf("(and (not (= (i-typ %s) 0)) (implements (i-typ %s) %d))", v.T, v.T, w.TypeID(t)), sBool, tb)
+			}
+		}
+		c.errf("implements: cannot resolve type")
+		return c.mk("false", sBool, tb)
 	case "u64":
 		// u64(x): x reduced to the 64-bit unsigned range, as Go's uint64 arithmetic does
 		v := c.eval(e.Args[0])
